@@ -126,8 +126,9 @@ CHECKS = {
          "variable iff that set is non-empty and otherwise the plain variable -- in particular the constructor's ValueError for an empty subscript set is unreachable; same_district "
          "is true iff all base variables lie in one bidirected-connectivity class. Bounded stand-in (labelled): minimisation and the Def. 2.1 ancestors against independent "
          "re-implementations on every ADMG with 2-3 nodes and sampled 3-4 node ADMGs x every counterfactual variable with <= 2 subscripts; SIMPLIFY against a functional-SCM oracle "
-         "(None only for probability-zero events, otherwise equal probability, no ill-formed variable) outside the input class of one open known finding. Not covered: the ancestral "
-         "components and the counterfactual-factor factorisation.",
+         "(None only for probability-zero events, otherwise equal probability, no ill-formed variable) outside the input class of one open known finding; get_ancestral_components against a re-implementation of Def. 4.2 (sampled root sets "
+         "<= 3 variables, X* a subset); do_counterfactual_factor_factorization against Eq. 11-15 structurally and the identity itself numerically on functional SCMs (queries whose "
+         "ancestor set has one vertex in two worlds are skipped: the library sums over names).",
          TRUST + "; data invariants of Variable / Intervention / CounterfactualVariable as axioms of the Variable algebra (y0vc/logic.py var_algebra); trusted mathematics: Correa, Lee & Bareinboim 2022",
          TECH + " (minimisation, district test) + bounded checks against re-implemented definitions and a functional-SCM oracle", "DESIGN.md §5 C19"),
  "C05": ("other", "Proved for all graphs and node sets (relations, closures, injective selection-node names): get_nodes_to_transport returns exactly the nodes the published derivation marks "
